@@ -1073,4 +1073,11 @@ pub(crate) const MAX_PUBKEY_SIZE: usize = 97;""")]),
          edits=[(AEAD, """including ones with a malformed ciphertext
         if self.0.overflowed {""", """including ones with a malformed ciphertext
         if cfg!(debug_assertions) && self.0.overflowed {""")]),
+    dict(name='c13-nist-privkey-guard-removed-from-spelling', expect=[('C13', 'R13.3')],
+         note='a private key of the wrong length panics in <&GenericArray>::from (spelled with From instead of .into())',
+         edits=[(NIST, """                    enforce_equal_len(Self::OutputSize::to_usize(), encoded.len())?;
+
+                    // * Invariant: PrivateKey is in [1,p). This is preserved here.""", """
+                    // * Invariant: PrivateKey is in [1,p). This is preserved here."""),
+                (NIST, "let sk = curve_crate::SecretKey::from_bytes(encoded.into())", "let sk = curve_crate::SecretKey::from_bytes(From::from(encoded))")]),
 ]
